@@ -30,6 +30,10 @@ def _drive(args):
     r = drv.rng(seed, 'c09', tid)
     if nrecs == -99999:
         recs = [vbsc.rec_content(r, n_, 'code', i * 131) for i, n_ in enumerate([300 + (i * 37) % 200 for i in range(60)])]
+    elif nrecs == -88888:
+        # records that look like fill (all x40, all x00) and cross block boundaries: a cut at the end of such a record
+        # leaves a short last block that holds nothing but x40
+        recs = [b'@' * 1100, b'@' * 40, bytes(1000), b'@' * 900, b'@' * 1012]
     elif nrecs < 0:
         # single record whose end falls at payload offsets 1009..1016 of the first block (length -nrecs)
         recs = [vbsc.rec_content(r, -nrecs, 'code', 0)]
@@ -124,6 +128,8 @@ def run(rep, wd, tier, seed):
         for blocked in ((True, False) if tier == 'thorough' else (True,)):
             for lo in range(0, 2 * (P + 2), 700):
                 jobs.append((seed, 1000 + n * 2 + int(blocked), blocked, -n, 0, lo, lo + 699))
+    for lo in range(0, 5 * (P + 2), 700):
+        jobs.append((seed, 4000, True, -88888, 0, lo, lo + 699))
     for lo in (4086, 8182, 16374, 24566):
         jobs.append((seed, 5000 + lo, False, -99999, 0, lo, lo + 24))
     jobs.append((seed, 5999, False, -99999, 0, 10 ** 6, 10 ** 6))          # the complete file
